@@ -1,17 +1,11 @@
 (* One entry point for the extracted model: [run cmd args] returns the result fields.
    The OCaml driver only splits lines, (un)escapes and converts strings. *)
 From Coq Require Import List Bool NArith String Ascii.
-From PC Require Import Base.Cmp Base.Result Model.Pep440 Spec.Pep440Spec Spec.Specifier Model.VConstraint Model.Generic.
+From PC Require Import Base.Cmp Base.Result Model.Pep440 Spec.Pep440Spec Spec.Specifier Model.VConstraint Model.Generic Model.Marker.
 Import ListNotations.
 Open Scope string_scope.
 Open Scope N_scope.
 
-Fixpoint split_on_aux (c : ascii) (l : chars) (cur : chars) : list chars :=
-  match l with
-  | [] => [rev cur]
-  | x :: r => if Ascii.eqb x c then rev cur :: split_on_aux c r [] else split_on_aux c r (x :: cur)
-  end.
-Definition split_on (c : ascii) (l : chars) : list chars := split_on_aux c l [].
 Definition read_N (l : chars) : option N :=
   match l with [] => None | _ => if forallb is_digit l then Some (num_of l) else None end.
 Fixpoint mapM {A B} (f : A -> option B) (l : list A) : option (list B) :=
@@ -135,7 +129,7 @@ Definition err_str (e : err) : string :=
   | EParseConstraint => "ParseConstraintError" | EInvalidVersion => "InvalidVersionError"
   | EInvalidMarker => "InvalidMarkerError" | EUndefinedComparison => "UndefinedComparison"
   | EUndefinedEnvName => "UndefinedEnvironmentName" | ERecursion => "RecursionError"
-  | EOutOfFuel => "OutOfFuel" | ENested => "ModelCannotRepresent" end.
+  | EOutOfFuel => "OutOfFuel" | ENested => "ModelCannotRepresent" | ENoPattern => "ParseConstraintError" end.
 Definition repr_ver (v : version) : string := vrepr v ++ "~" ++ text v.
 Definition repr_over (o : option version) : string := match o with Some v => repr_ver v | None => "-" end.
 Definition repr_rng (r : rng) : string :=
@@ -175,6 +169,17 @@ Definition run_vc (cmd : string) (args : list string) : option (list string) :=
       Some match cparse (seq m "1") s with
            | Ok c => "ok" :: describe c ++ map (probe_allows c) probes
            | Err e => ["err"; err_str e] end
+    | _ => None end
+  else if seq cmd "cparse_text" then
+    match args with
+    | m :: pep :: s :: probes =>
+      Some match parse_constraint_text (seq m "1") (seq pep "1") s with
+           | Ok c => "ok" :: describe c ++ map (probe_allows c) probes
+           | Err e => ["err"; err_str e] end
+    | _ => None end
+  else if seq cmd "csplit" then
+    match args with
+    | [s] => Some (map (fun g => sjoin "\x1f" g) (clause_groups s))
     | _ => None end
   else if seq cmd "cbin" then
     match args with
@@ -252,6 +257,141 @@ Definition run_generic (cmd : string) (args : list string) : option (list string
     | _ => None end
   else None.
 
+(* ---------------- markers ---------------- *)
+(* prefix encoding, tokens separated by byte 31:
+   expr:   L name cstr swapped | AND n e1..en | OR n e1..en
+   marker: A | E | S name op value swapped | AM name n (op value)*n | AU name n (op value)*n | M n .. | U n .. *)
+Definition tokens (s : string) : list string := map str (split_on (ascii_of_N 31) (lchars s)).
+Definition tok_nat (s : string) : option nat := option_map N.to_nat (read_N (lchars s)).
+Fixpoint dec_expr (fuel : nat) (ts : list string) : option (mexpr * list string) :=
+  match fuel with
+  | O => None
+  | S f =>
+    match ts with
+    | "L" :: name :: cstr :: sw :: r => Some (ELeaf name cstr (seq sw "1"), r)
+    | tag :: n :: r =>
+      if seq tag "AND" || seq tag "OR" then
+        match tok_nat n with
+        | Some k =>
+          (fix many (k : nat) (ts : list string) (acc : list mexpr) : option (mexpr * list string) :=
+             match k with
+             | O => Some (if seq tag "AND" then EAnd (rev acc) else EOr (rev acc), ts)
+             | S k' => match dec_expr f ts with
+                       | Some (e, ts') => many k' ts' (e :: acc)
+                       | None => None end
+             end) k r []
+        | None => None end
+      else None
+    | _ => None
+    end
+  end.
+Definition gop_of (s : string) : option gop :=
+  if seq s "==" then Some GEq else if seq s "!=" then Some GNe else
+  if seq s "in" then Some GIn else if seq s "not in" then Some GNotIn else None.
+Fixpoint dec_atoms (extra : bool) (k : nat) (ts : list string) (acc : list atom) : option (list atom * list string) :=
+  match k with
+  | O => Some (rev acc, ts)
+  | S k' => match ts with
+            | op :: v :: r => match gop_of op with
+                              | Some o => dec_atoms extra k' r (mkA v o extra :: acc)
+                              | None => None end
+            | _ => None end
+  end.
+Fixpoint dec_marker (fuel : nat) (ts : list string) : option (res marker * list string) :=
+  match fuel with
+  | O => None
+  | S f =>
+    match ts with
+    | tag :: r =>
+      if seq tag "A" then Some (Ok MAny, r) else
+      if seq tag "E" then Some (Ok MEmpty, r) else
+      if seq tag "S" then
+        match r with
+        | name :: op :: value :: sw :: r' =>
+          let swapped := seq sw "1" in
+          let cstr := if swapped then String (ascii_of_N 34) value ++ String (ascii_of_N 34) " " ++ op else op ++ value in
+          Some (match mk_leaf name cstr swapped with
+                | Ok l => Ok (MSingle (mkLeaf (l_name l) op value swapped (l_con l)))
+                | Err e => Err e end, r')
+        | _ => None end
+      else if seq tag "AM" || seq tag "AU" then
+        match r with
+        | name :: n :: r' =>
+          match tok_nat n with
+          | Some k => match dec_atoms (seq name "extra") k r' [] with
+                      | Some (atoms, r'') => Some (Ok (if seq tag "AM" then MAtomicMulti name atoms else MAtomicUnion name atoms), r'')
+                      | None => None end
+          | None => None end
+        | _ => None end
+      else if seq tag "M" || seq tag "U" then
+        match r with
+        | n :: r' =>
+          match tok_nat n with
+          | Some k =>
+            (fix many (k : nat) (ts : list string) (acc : list marker) (err : option err) : option (res marker * list string) :=
+               match k with
+               | O => Some (match err with
+                            | Some e => Err e
+                            | None => Ok (if seq tag "M" then MMulti (rev acc) else MUnion (rev acc)) end, ts)
+               | S k' => match dec_marker f ts with
+                         | Some (Ok m, ts') => many k' ts' (m :: acc) err
+                         | Some (Err e, ts') => many k' ts' acc (Some e)
+                         | None => None end
+               end) k r' [] None
+          | None => None end
+        | _ => None end
+      else None
+    | [] => None
+    end
+  end.
+(* env: pairs k=v separated by byte 31, then byte 30, then "-" or a comma-separated list of extras *)
+Definition dec_env (s : string) : env :=
+  match split_on (ascii_of_N 30) (lchars s) with
+  | [vars; ex] =>
+    let pairs := flat_map (fun kv => match split_on "="%char kv with
+                                     | k :: v :: more => [(str k, str (fold_left (fun acc x => (acc ++ "="%char :: x)%list) more v))]
+                                     | _ => [] end)
+                          (match vars with [] => [] | _ => split_on (ascii_of_N 31) vars end) in
+    mkEnv pairs (match ex with ["-"%char] => None | [] => Some [] | _ => Some (map str (split_on ","%char ex)) end)
+  | _ => mkEnv [] None
+  end.
+Definition run_marker (cmd : string) (args : list string) : option (list string) :=
+  if seq cmd "meval" then
+    match args with
+    | e :: envs =>
+      Some match dec_expr 1000 (tokens e) with
+           | Some (ex, []) => map (fun en => rbool (eval_expr ex (dec_env en))) envs
+           | _ => ["baddecoding"] end
+    | _ => None end
+  else if seq cmd "mstruct" then
+    match args with
+    | m :: envs =>
+      Some match dec_marker 1000 (tokens m) with
+           | Some (Ok mk, []) => "ok" :: marker_str mk :: map (fun en => rbool (validate mk (dec_env en))) envs
+           | Some (Err e, []) => ["err"; err_str e]
+           | _ => ["baddecoding"] end
+    | _ => None end
+  else if seq cmd "minvert" then
+    match args with
+    | m :: envs =>
+      Some match dec_marker 1000 (tokens m) with
+           | Some (Ok mk, []) =>
+             match invert mk with
+             | Ok inv => "ok" :: marker_str inv :: map (fun en => rbool (validate inv (dec_env en))) envs
+             | Err e => ["err"; err_str e] end
+           | Some (Err e, []) => ["err"; err_str e]
+           | _ => ["baddecoding"] end
+    | _ => None end
+  else if seq cmd "mleaf" then
+    match args with
+    | [name; cstr; sw] =>
+      Some match mk_leaf name cstr (seq sw "1") with
+           | Ok l => ["ok"; l_name l; l_op l; l_value l;
+                      match l_con l with CG c => "G:" ++ grepr c | CV c => "V:" ++ crepr c end]
+           | Err e => ["err"; err_str e] end
+    | _ => None end
+  else None.
+
 (* reference specifier semantics (Spec/Specifier.v), validated against packaging by the harness *)
 Definition run_spec (cmd : string) (args : list string) : option (list string) :=
   if seq cmd "spcontains" then
@@ -280,7 +420,10 @@ Definition run (cmd : string) (args : list string) : list string :=
     | Some r => r
     | None => match run_spec cmd args with
               | Some r => r
-              | None => match run_generic cmd args with Some r => r | None => ["unknown-command"] end
+              | None => match run_generic cmd args with
+                        | Some r => r
+                        | None => match run_marker cmd args with Some r => r | None => ["unknown-command"] end
+                        end
               end
     end
   end.
